@@ -1919,3 +1919,228 @@ example : FullyResolved axes12 [3, 3] (3/2) := by
 
 example : ballMask axes12 [3, 3] (3/2) (3 * 12 + 3) = true := by decide +kernel
 end DV.C01
+
+/-! ### cylindrical grids (model of `_locate_droplets_in_mask_cylindrical`, `Model/Cyl.lean`) -/
+
+namespace DV.C01
+open Finset BigOperators DV.Merge DV.MergeInv DV.Label DV.LabelInv DV.GridGeom DV.Render DV.BallConn DV.WrapDiff DV.C02 DV.Cyl Relation
+
+theorem labelExec_length (shape : List ℕ) (mask : ℕ → Bool) : (labelExec shape mask).length = numCells shape := by
+  unfold labelExec; simp
+
+theorem foldl_max_le (l : List ℕ) (a b : ℕ) (ha : a ≤ b) (h : ∀ x ∈ l, x ≤ b) : l.foldl max a ≤ b := by
+  induction l generalizing a with
+  | nil => simpa
+  | cons x xs ih =>
+    simp only [List.foldl_cons]
+    exact ih _ (max_le ha (h x (by simp))) (fun y hy => h y (by simp [hy]))
+
+/-- a non-empty image that is connected through in-box face pairs gets exactly one label, 1 -/
+theorem clustersOf_connected (shape : List ℕ) (mask : ℕ → Bool)
+    (hmask : ∀ c, mask c = true → c < numCells shape)
+    (hconn : ∀ c1 c2, mask c1 = true → mask c2 = true → MaskConn mask (inboxEdges shape) c1 c2)
+    (hne : ∃ c, mask c = true) :
+    clustersOf (labelExec shape mask) = [⟨1, (List.range (numCells shape)).filter mask⟩] := by
+  obtain ⟨hpos, heq, _, hgap⟩ := labelExec_isLabelling shape mask hmask
+  set labels := labelExec shape mask with hlabels
+  have hL : ∀ c, labelFn shape mask c = labels.getD c 0 := fun c => rfl
+  obtain ⟨c0, hc0⟩ := hne
+  have h1 : ∀ c, mask c = true → labels.getD c 0 = 1 := by
+    intro c hc
+    obtain ⟨c', hc'⟩ := hgap c hc 1 le_rfl (by have := (hpos c).mpr hc; omega)
+    have m' : mask c' = true := (hpos c').mp (by omega)
+    rw [← hL, ← hc']
+    exact (heq c c' hc m').mpr (hconn c c' hc m')
+  have h0 : ∀ c, mask c ≠ true → labels.getD c 0 = 0 := by
+    intro c hc
+    have := (hpos c).not.mpr hc
+    rw [hL] at this; omega
+  have hmax : labels.foldl max 0 = 1 := by
+    apply le_antisymm
+    · apply foldl_max_le _ _ _ (by omega)
+      intro x hx
+      obtain ⟨i, hi, rfl⟩ := List.getElem_of_mem hx
+      have : labels.getD i 0 = labels[i] := by simp [List.getD_eq_getElem?_getD, hi]
+      by_cases hm : mask i = true
+      · rw [← this, h1 i hm]
+      · rw [← this, h0 i hm]; omega
+    · rw [← h1 c0 hc0]; exact getD_le_foldl_max labels c0
+  unfold clustersOf
+  simp only [hmax, List.range_one, List.map_cons, List.map_nil, zero_add]
+  congr 2
+  rw [hlabels, labelExec_length, ← hlabels]
+  apply List.filter_congr
+  intro c _
+  by_cases hm : mask c = true
+  · show (labels.getD c 0 == 1) = mask c
+    rw [h1 c hm, hm]; rfl
+  · have : mask c = false := by simpa using hm
+    show (labels.getD c 0 == 1) = mask c
+    rw [h0 c hm, this]; rfl
+
+
+theorem gridConn_nonperiodic (shape : List ℕ) (periodic : List Bool) (mask : ℕ → Bool) (hpos : ∀ n ∈ shape, 0 < n)
+    (hper : ∀ ax, periodic.getD ax false = false) {a b : ℕ} (h : GridConn shape periodic mask a b) :
+    MaskConn mask (inboxEdges shape) a b := by
+  refine EqvGen.mono ?_ a b h
+  rintro x y ⟨mx, my, hxy⟩
+  refine ⟨mx, my, ?_⟩
+  rcases hxy with rfl | ⟨ax, h1 | h2⟩
+  · exact Or.inl rfl
+  · exact Or.inr ⟨⟨ax, x, y⟩, (inboxEdges_iff shape hpos ax x y).mpr h1, rfl, rfl⟩
+  · have := h2.2.2.2.1
+    rw [hper ax] at this
+    exact absurd this (by simp)
+
+/-! ### cylindrical grids: an on-axis droplet (non-periodic z) -/
+
+/-- the (r, z) half-plane of a cylindrical grid as a 2-axis grid: r starts at 0 -/
+def cylAxes (dr zlo dz : ℚ) (nr nz : ℕ) : List Axis := [⟨0, dr, nr, false⟩, ⟨zlo, dz, nz, false⟩]
+
+section cyl
+variable (dr zlo dz : ℚ) (nr nz : ℕ) (z0 R : ℚ)
+
+/-- sharp image of a droplet centred ON the symmetry axis at height `z0` -/
+def cylMask : ℕ → Bool := ballMask (cylAxes dr zlo dz nr nz) [0, z0] R
+
+theorem cyl_shape : shapeOf (cylAxes dr zlo dz nr nz) = [nr, nz] := rfl
+theorem cyl_per : perOf (cylAxes dr zlo dz nr nz) = [false, false] := rfl
+theorem cyl_numCells : numCells [nr, nz] = nr * nz := by simp [numCells]
+theorem cyl_unflat (c : ℕ) : unflat [nr, nz] c = [c / nz % nr, c % nz] := by simp [unflat]
+
+theorem cyl_wf (hdr : 0 < dr) (hdz : 0 < dz) (hnr : 0 < nr) (hnz : 0 < nz) : GridWF (cylAxes dr zlo dz nr nz) [0, z0] := by
+  refine ⟨?_, rfl⟩
+  intro a ha
+  simp only [cylAxes, List.mem_cons, List.not_mem_nil, or_false] at ha
+  rcases ha with rfl | rfl
+  · exact ⟨hdr, hnr⟩
+  · exact ⟨hdz, hnz⟩
+
+theorem cylMask_iff (c : ℕ) : cylMask dr zlo dz nr nz z0 R c = true ↔
+    c < nr * nz ∧ (((c / nz % nr : ℕ) : ℚ) + 1 / 2) * dr * ((((c / nz % nr : ℕ) : ℚ) + 1 / 2) * dr)
+      + (zlo + (((c % nz : ℕ) : ℚ) + 1 / 2) * dz - z0) * (zlo + (((c % nz : ℕ) : ℚ) + 1 / 2) * dz - z0) < R * R := by
+  unfold cylMask
+  rw [ballMask_iff, cyl_shape, cyl_numCells]
+  unfold D
+  rw [cyl_shape, cyl_unflat]
+  simp [cylAxes, dist2r, Axis.diff, Axis.centre]
+
+
+theorem foldl_add_nat (xs : List ℕ) (a : ℕ) : xs.foldl (· + ·) a = a + xs.sum := by
+  induction xs generalizing a with
+  | nil => simp
+  | cons x xs ih => simp only [List.foldl_cons, List.sum_cons, ih]; omega
+
+theorem list_filter_sum (n : ℕ) (p : ℕ → Bool) (f : ℕ → ℚ) :
+    (((List.range n).filter p).map f).sum = ∑ c ∈ (Finset.range n).filter (fun c => p c = true), f c := by
+  rw [← List.sum_toFinset f ((List.nodup_range).filter _), List.toFinset_filter, List.toFinset_range]
+
+theorem list_filter_card (n : ℕ) (p : ℕ → Bool) :
+    ((List.range n).filter p).length = ((Finset.range n).filter (fun c => p c = true)).card := by
+  rw [← List.toFinset_card_of_nodup ((List.nodup_range).filter _), List.toFinset_filter, List.toFinset_range]
+
+/-- **C01 on a cylindrical grid (non-periodic z), for the model of `_locate_droplets_in_mask_cylindrical`.**
+A droplet centred on the symmetry axis that lies inside the box along z and covers at least one cell centre
+yields exactly ONE candidate; its volume weight is the sum of the weights `2 i_r + 1` (cell volume / π dr² dz)
+of exactly the covered cells, and its height is within HALF A CELL of the droplet's. -/
+theorem C01_cylinder_model (hdr : 0 < dr) (hdz : 0 < dz) (hnr : 0 < nr) (hnz : 0 < nz) (hR : 0 ≤ R)
+    (hbox : zlo + R ≤ z0 ∧ z0 + R ≤ zlo + dz * nz) (hne : ∃ c, cylMask dr zlo dz nr nz z0 R c = true) :
+    ∃ zp : ℚ, Cyl.candidates nr nz false (cylMask dr zlo dz nr nz z0 R) =
+        some [(zp, (((List.range (nr * nz)).filter (cylMask dr zlo dz nr nz z0 R)).map fun c => 2 * (c / nz) + 1).sum)] ∧
+      |zlo + zp * dz - z0| < dz / 2 := by
+  set axes := cylAxes dr zlo dz nr nz with haxes
+  set mask := cylMask dr zlo dz nr nz z0 R with hmask
+  have hwf : GridWF axes [0, z0] := cyl_wf dr zlo dz nr nz z0 hdr hdz hnr hnz
+  have hpos : ∀ n ∈ [nr, nz], 0 < n := by
+    intro n hn; simp only [List.mem_cons, List.not_mem_nil, or_false] at hn; rcases hn with rfl | rfl <;> assumption
+  have hmlt : ∀ c, mask c = true → c < numCells [nr, nz] := by
+    intro c hc; rw [cyl_numCells]; exact ((cylMask_iff dr zlo dz nr nz z0 R c).mp hc).1
+  have hconn : ∀ c1 c2, mask c1 = true → mask c2 = true → MaskConn mask (inboxEdges [nr, nz]) c1 c2 := by
+    intro c1 c2 m1 m2
+    have := ball_connected axes [0, z0] hwf R m1 m2
+    exact gridConn_nonperiodic [nr, nz] [false, false] mask hpos (by intro ax; rcases ax with _ | _ | ax <;> simp) this
+  have hcl := clustersOf_connected [nr, nz] mask hmlt hconn hne
+  rw [cyl_numCells] at hcl
+  set cells := (List.range (nr * nz)).filter mask with hcells
+  obtain ⟨c0, hc0⟩ := hne
+  have hc0' := (cylMask_iff dr zlo dz nr nz z0 R c0).mp hc0
+  have hmemcells : ∀ c, c ∈ cells ↔ c < nr * nz ∧ mask c = true := by
+    intro c; simp [hcells]
+  -- the cluster touches the axis
+  have hon : Cluster.onAxis nz (⟨1, cells⟩ : Cluster) = true := by
+    unfold Cluster.onAxis rIdx
+    simp only [List.any_eq_true, beq_iff_eq]
+    refine ⟨c0 % nz, ?_, Nat.div_eq_of_lt (Nat.mod_lt _ hnz)⟩
+    rw [hmemcells]
+    have hlt : c0 % nz < nr * nz := lt_of_lt_of_le (Nat.mod_lt _ hnz) (Nat.le_mul_of_pos_left _ hnr)
+    refine ⟨hlt, (cylMask_iff dr zlo dz nr nz z0 R _).mpr ⟨hlt, ?_⟩⟩
+    rw [Nat.div_eq_of_lt (Nat.mod_lt _ hnz), Nat.mod_mod, Nat.zero_mod]
+    refine lt_of_le_of_lt ?_ hc0'.2
+    have hi : (0 : ℚ) ≤ ((c0 / nz % nr : ℕ) : ℚ) := Nat.cast_nonneg _
+    push_cast
+    nlinarith [mul_pos hdr hdr, mul_nonneg (mul_nonneg hi hi) (mul_pos hdr hdr).le, mul_nonneg hi (mul_pos hdr hdr).le]
+  have hspan : Cluster.spans nz (⟨1, cells⟩ : Cluster) nz = false := by
+    unfold Cluster.spans zIdx
+    rw [Bool.and_eq_false_iff]
+    right
+    rw [List.any_eq_false]
+    intro c _
+    simpa using Nat.mod_lt c hnz
+  unfold Cyl.candidates
+  simp only [Bool.false_eq_true, if_false]
+  unfold Cyl.single
+  simp only [hcl, List.filter_cons, hon, if_true, List.filter_nil, List.any_cons, hspan, List.any_nil, Bool.or_false,
+    Bool.false_eq_true, if_false, List.map_cons, List.map_nil]
+  refine ⟨Cluster.zpos nz ⟨1, cells⟩, ?_, ?_⟩
+  · unfold Cluster.weight rIdx
+    rw [foldl_add_nat]; simp
+  · -- half-cell bound
+    unfold Cluster.zpos zIdx
+    rw [foldl_add_rat, zero_add]
+    simp only
+    have hSne : ((Finset.range (numCells (shapeOf axes))).filter fun c => ballMask axes [0, z0] R c = true).Nonempty :=
+      ⟨c0, by simp only [Finset.mem_filter, Finset.mem_range]; exact ⟨hmlt c0 hc0, hc0⟩⟩
+    have hres : AxisResolved (axes.getD 1 default) (([0, z0] : List ℚ).getD 1 0) R := by
+      refine ⟨hR, fun hp => by simp [haxes, cylAxes] at hp, fun _ => ?_⟩
+      simp only [haxes, cylAxes, List.getD_cons_succ, List.getD_cons_zero, Axis.length]
+      exact hbox
+    have hmean := ball_offset_mean axes [0, z0] hwf R (k := 1) (by simp [haxes, cylAxes]) hres hSne
+    have hN : numCells (shapeOf axes) = nr * nz := cyl_numCells nr nz
+    rw [hN] at hmean
+    have hU : ∀ c, U axes [0, z0] c 1 = zlo + (((c % nz : ℕ) : ℚ) + 1 / 2) * dz - z0 := by
+      intro c
+      rw [U_eq]
+      show Axis.diff _ _ (coordOf [nr, nz] c 1) = _
+      unfold coordOf
+      rw [cyl_unflat]
+      simp [haxes, cylAxes, Axis.diff, Axis.centre]
+    simp only [hU] at hmean
+    change |∑ c ∈ (Finset.range (nr * nz)).filter (fun c => mask c = true), _| <
+      (((Finset.range (nr * nz)).filter (fun c => mask c = true)).card : ℚ) * _ at hmean
+    rw [hcells, list_filter_sum, list_filter_card]
+    set S := (Finset.range (nr * nz)).filter (fun c => mask c = true) with hS
+    have hcard : (0 : ℚ) < S.card := by
+      have : S.Nonempty := ⟨c0, by simp only [hS, Finset.mem_filter, Finset.mem_range]; exact ⟨hc0'.1, hc0⟩⟩
+      exact_mod_cast this.card_pos
+    have hsum : ∑ c ∈ S, (zlo + (((c % nz : ℕ) : ℚ) + 1 / 2) * dz - z0)
+        = (S.card : ℚ) * (zlo + dz / 2 - z0) + dz * ∑ c ∈ S, ((c % nz : ℕ) : ℚ) := by
+      rw [Finset.mul_sum, Finset.card_eq_sum_ones]
+      push_cast
+      rw [Finset.sum_mul, ← Finset.sum_add_distrib]
+      apply Finset.sum_congr rfl; intro c _; ring
+    rw [hsum] at hmean
+    have key : zlo + ((∑ c ∈ S, ((c % nz : ℕ) : ℚ)) / S.card + 1 / 2) * dz - z0
+        = ((S.card : ℚ) * (zlo + dz / 2 - z0) + dz * ∑ c ∈ S, ((c % nz : ℕ) : ℚ)) / S.card := by
+      field_simp; ring
+    have hdx : (axes.getD 1 default).dx = dz := rfl
+    rw [hdx] at hmean
+    rw [key, abs_div, abs_of_pos hcard, div_lt_iff₀ hcard]
+    linarith
+
+end cyl
+
+/-- non-vacuity: 4 × 8 cells of size 1, droplet of radius 2.2 on the axis at height 4.3: the hypotheses hold and the
+executed model returns one candidate at 59/14 ≈ 4.21 cells (within half a cell of 4.3) of weight 13 -/
+example : cylMask 1 0 1 4 8 (43/10) (11/5) 4 = true := by decide +kernel
+example : Cyl.candidates 4 8 false (cylMask 1 0 1 4 8 (43/10) (11/5)) = some [(59/14, 13)] := by decide +kernel
+end DV.C01
